@@ -5,6 +5,7 @@ import (
 	"errors"
 	"fmt"
 	"regexp"
+	"runtime"
 	"sort"
 	"strconv"
 	"strings"
@@ -24,6 +25,16 @@ import (
 // delivered, when a caller's context is cancelled and (relaxed configuration) when a pool
 // connection is lost.
 //
+// Where the settings of a statement come from is drawn too: the retry policy from the cluster
+// configuration (ClusterConfig.RetryPolicy, inherited by Session.Query / Session.NewBatch) or
+// from the statement (Query.RetryPolicy / Batch.RetryPolicy, including the explicit "none for
+// this statement", RetryPolicy(nil), while the cluster has one), idempotence from
+// ClusterConfig.DefaultIdempotence or Query.Idempotent, on every entry of a batch, on all but
+// one, or on none, and the speculative policy left at its default or set to one that asks for
+// no extra execution. The statement's own setting wins: the cluster-wide policy is a recorder
+// as well, and a call it receives for a statement that has its own policy, or was told to
+// have none, is a violation whatever it answers.
+//
 // The oracle is a model of the documented contract (doc.go "Retries and speculative
 // execution", the doc comments of RetryPolicy / RetryType / SimpleRetryPolicy /
 // DowngradingConsistencyRetryPolicy / Query.Idempotent, and the property text). The retry
@@ -38,7 +49,7 @@ func init() {
 		Run:        runRetry,
 		Real:       []string{"gocql Session/queryExecutor (do, speculate, run), retry policies, speculative policy, Query/Batch attempt metrics, pools, Conn.exec (real code)", "Go runtime scheduler, timers, tickers, contexts (fake clock)"},
 		Stub:       []string{"Cassandra nodes with scripted per-request outcomes (independent cqlspec codec)", "TCP (simnet)", "HostSelectionPolicy (harness: tape-chosen order per query)", "clock (testing/synctest)"},
-		Rule:       "one run = 1-4 callers x 2-6 queries/batches over 2-4 nodes; per query a tape-chosen retry policy (none/simple/exponential/downgrading/scripted decisions), speculative policy (none or 1-3 extra executions after 10ms-1s), idempotence flag and host order; per request received a tape-chosen outcome (rows, one of 18 server error kinds, silence), tape-chosen reply delivery order and time advance, context cancels and (relaxed configuration) connection loss; distinct = distinct canonical-log fingerprint; non-trivial = at least one failed attempt, cancel, connection loss or park and at least one completed operation",
+		Rule:       "one run = 1-4 callers x 2-6 queries/batches over 2-4 nodes; per run a cluster-wide retry policy (none or present) and default idempotence; per query a tape-chosen retry policy (none/simple/exponential/downgrading/scripted decisions) that comes from the statement, from the cluster configuration, or is explicitly switched off on the statement, speculative policy (unset, explicitly non-speculative, zero attempts, or 1-3 extra executions after 10ms-1s), idempotence (statement, cluster default, every/all-but-one/no batch entry) and host order; per request received a tape-chosen outcome (rows, one of 19 server error kinds, silence, and in the relaxed configuration the node closing the connection), tape-chosen reply delivery order and time advance, context cancels and (relaxed configuration) connection loss; distinct = distinct canonical-log fingerprint; non-trivial = at least one failed attempt, cancel, connection loss or park and at least one completed operation",
 	})
 }
 
@@ -66,7 +77,20 @@ type rtPlan struct {
 	specK      int
 	specDelay  time.Duration
 	order      []string // host addresses in the order the harness policy offers them
+
+	// where the settings come from (0 = the statement sets them itself: the old behaviour)
+	rtSrc     int  // rtSrcStmt: Query/Batch.RetryPolicy(p) is called (p == nil for rtNone: "none for this statement"); rtSrcCluster: never called, ClusterConfig.RetryPolicy governs
+	rtUnset   bool // rtNone without a cluster policy: RetryPolicy() is not called at all
+	clusterRT bool // the cluster configuration has a retry policy (per run)
+	idemVar   int  // query: 1 = Idempotent() not called where the cluster default says the same; batch: 1 = a single entry is not idempotent, 2 = no entry is touched
+	niEntry   int  // batch, idemVar 1: the entry that is not idempotent
+	specSrc   int  // specK == 0: 0 = policy not set, 1 = NonSpeculativeExecution set, 2 = SimpleSpeculativeExecution{NumAttempts: 0} set
 }
+
+const (
+	rtSrcStmt = iota
+	rtSrcCluster
+)
 
 func (p *rtPlan) budget() int {
 	switch p.rtKind {
@@ -95,8 +119,23 @@ func (p *rtPlan) String() string {
 	case rtScript:
 		s += fmt.Sprintf(" rt=script(budget %d, %v)", p.n, p.script)
 	}
+	switch {
+	case p.rtSrc == rtSrcCluster:
+		s += "(from the cluster configuration)"
+	case p.rtUnset:
+		s += "(never set)"
+	case p.clusterRT && p.rtKind == rtNone:
+		s += "(RetryPolicy(nil) on the statement; the cluster configuration has a policy)"
+	case p.clusterRT:
+		s += "(on the statement; the cluster configuration has another)"
+	}
 	if p.specK > 0 {
 		s += fmt.Sprintf(" spec=%dx%v", p.specK, p.specDelay)
+	} else if p.specSrc > 0 {
+		s += []string{"", " spec=NonSpeculativeExecution", " spec=simple(0 attempts)"}[p.specSrc]
+	}
+	if p.idemVar > 0 {
+		s += fmt.Sprintf(" idemVar=%d", p.idemVar)
 	}
 	return fmt.Sprintf("%s idempotent=%v order=%v", s, p.idempotent, p.order)
 }
@@ -106,6 +145,7 @@ const (
 	rtOK = iota
 	rtErr
 	rtDrop
+	rtClose // the node closes the connection instead of answering (relaxed configuration only)
 )
 
 // effective outcome of an attempt as the driver saw it
@@ -147,11 +187,17 @@ type rtCall struct {
 	typ      gocql.RetryType
 	err      string
 	attempts int
+	// foreign: the call was made on the cluster-wide policy although the statement has its
+	// own policy or was told to have none
+	foreign bool
 }
 
 type rtOp struct {
 	token string
 	plan  *rtPlan
+	// rec: the recorder around the policy that governs the statement (nil = none); foreignRec:
+	// what the cluster-wide policy does when it is consulted for a statement it does not govern
+	rec, foreignRec *rtRecPolicy
 
 	atts    []*rtAtt
 	calls   []rtCall
@@ -198,6 +244,9 @@ func (st *rtState) eff(a *rtAtt) int {
 	}
 	if a.kind == rtDrop {
 		return effTimeout
+	}
+	if a.kind == rtClose && a.closed && a.closedAt-a.at >= st.timeout {
+		return effTimeout // the request timeout came first
 	}
 	if !a.dlv {
 		return effAmbig
@@ -341,6 +390,23 @@ type rtRecPolicy struct {
 	op      *rtOp
 	inner   gocql.RetryPolicy
 	backoff bool
+	foreign bool
+}
+
+// newRec builds the recorder around the policy the plan of op describes (nil = none).
+func (st *rtState) newRec(op *rtOp) *rtRecPolicy {
+	pl := op.plan
+	switch pl.rtKind {
+	case rtSimple:
+		return &rtRecPolicy{st: st, op: op, inner: &gocql.SimpleRetryPolicy{NumRetries: pl.n}}
+	case rtExp:
+		return &rtRecPolicy{st: st, op: op, backoff: true, inner: &gocql.ExponentialBackoffRetryPolicy{NumRetries: pl.n, Min: pl.expMin, Max: pl.expMax}}
+	case rtDowngrade:
+		return &rtRecPolicy{st: st, op: op, inner: &gocql.DowngradingConsistencyRetryPolicy{ConsistencyLevelsToTry: pl.levels}}
+	case rtScript:
+		return &rtRecPolicy{st: st, op: op, inner: &rtScriptPolicy{budget: pl.n, seq: pl.script}}
+	}
+	return nil
 }
 
 func (p *rtRecPolicy) Attempt(q gocql.RetryableQuery) bool {
@@ -354,9 +420,9 @@ func (p *rtRecPolicy) Attempt(q gocql.RetryableQuery) bool {
 	n := q.Attempts()
 	p.st.mu.Lock()
 	p.op.inBackoff = false
-	p.op.calls = append(p.op.calls, rtCall{step: step, attempt: true, ok: ok, attempts: n})
+	p.op.calls = append(p.op.calls, rtCall{step: step, attempt: true, ok: ok, attempts: n, foreign: p.foreign})
 	p.st.mu.Unlock()
-	p.st.k.Rec("policy %s Attempt(attempts=%d)=%v", p.op.token, n, ok)
+	p.st.k.Rec("policy %s Attempt(attempts=%d)=%v%s", p.op.token, n, ok, p.tag())
 	return ok
 }
 
@@ -364,10 +430,118 @@ func (p *rtRecPolicy) GetRetryType(err error) gocql.RetryType {
 	t := p.inner.GetRetryType(err)
 	step := p.st.k.Step()
 	p.st.mu.Lock()
-	p.op.calls = append(p.op.calls, rtCall{step: step, typ: t, err: ErrClass(err)})
+	p.op.calls = append(p.op.calls, rtCall{step: step, typ: t, err: ErrClass(err), foreign: p.foreign})
 	p.st.mu.Unlock()
-	p.st.k.Rec("policy %s GetRetryType(%s)=%s", p.op.token, ErrClass(err), rtTypeName(t))
+	p.st.k.Rec("policy %s GetRetryType(%s)=%s%s", p.op.token, ErrClass(err), rtTypeName(t), p.tag())
 	return t
+}
+
+func (p *rtRecPolicy) tag() string {
+	if p.foreign {
+		return " [cluster-wide policy, which does not govern this statement]"
+	}
+	return ""
+}
+
+// rtClusterPolicy is the value of ClusterConfig.RetryPolicy: one object for the session. It
+// looks at the statement it is asked about: for a statement that inherits the cluster-wide
+// policy it answers what the plan of that statement says (a policy is an arbitrary decision
+// function of the query); for any other statement - one with its own policy, or told to
+// have none - it answers like SimpleRetryPolicy{NumRetries: rtForeignRetries} and the call
+// is recorded as foreign. GetRetryType is given the error only: it belongs to the statement
+// of the Attempt call that preceded it on the same goroutine.
+type rtClusterPolicy struct {
+	st  *rtState
+	mu  sync.Mutex
+	cur map[uint64]*rtRecPolicy
+}
+
+const rtForeignRetries = 3
+
+func (p *rtClusterPolicy) recFor(q interface{}) *rtRecPolicy {
+	var token string
+	switch x := q.(type) {
+	case *gocql.Query:
+		token = tokenRe.FindString(x.Statement())
+	case *gocql.Batch:
+		if len(x.Entries) > 0 {
+			token = tokenRe.FindString(x.Entries[0].Stmt)
+		}
+	}
+	p.st.mu.Lock()
+	defer p.st.mu.Unlock()
+	op := p.st.ops[token]
+	if op == nil {
+		return nil
+	}
+	if op.plan.rtSrc == rtSrcCluster {
+		return op.rec
+	}
+	return op.foreignRec
+}
+
+func (p *rtClusterPolicy) Attempt(q gocql.RetryableQuery) bool {
+	rec := p.recFor(q)
+	if rec == nil {
+		p.st.k.Probe("cluster-policy-call-not-attributable")
+		return false
+	}
+	g := rtGoid()
+	p.mu.Lock()
+	p.cur[g] = rec
+	p.mu.Unlock()
+	ok := rec.Attempt(q)
+	if !ok {
+		p.mu.Lock()
+		delete(p.cur, g)
+		p.mu.Unlock()
+	}
+	return ok
+}
+
+func (p *rtClusterPolicy) GetRetryType(err error) gocql.RetryType {
+	g := rtGoid()
+	p.mu.Lock()
+	rec := p.cur[g]
+	delete(p.cur, g)
+	p.mu.Unlock()
+	if rec == nil {
+		// not preceded by Attempt on this goroutine: a server error still names its statement
+		var re gocql.RequestError
+		if errors.As(err, &re) {
+			p.st.mu.Lock()
+			op := p.st.ops[tokenRe.FindString(re.Message())]
+			p.st.mu.Unlock()
+			if op != nil {
+				if rec = op.foreignRec; op.plan.rtSrc == rtSrcCluster {
+					rec = op.rec
+				}
+			}
+		}
+	}
+	if rec == nil {
+		p.st.k.Probe("cluster-policy-call-not-attributable")
+		return gocql.Rethrow
+	}
+	return rec.GetRetryType(err)
+}
+
+// rtGoid returns the id of the calling goroutine ("goroutine 123 [running]:").
+func rtGoid() uint64 {
+	var buf [48]byte
+	b := buf[:runtime.Stack(buf[:], false)]
+	const pfx = "goroutine "
+	if len(b) < len(pfx) {
+		return 0
+	}
+	var id uint64
+	for _, c := range b[len(pfx):] {
+		if c < '0' || c > '9' {
+			break
+		}
+		id = id*10 + uint64(c-'0')
+	}
+	return id
 }
 
 // rtScriptPolicy allows a fixed number of retries (counted by its own calls) and answers
@@ -439,6 +613,7 @@ var rtErrKinds = []rtErrKind{
 	{cqlspec.ErrCASWriteUnknown, "cas-write-unknown"},
 	{cqlspec.ErrProtocol, "protocol"},
 	{cqlspec.ErrCredentials, "credentials"},
+	{cqlspec.ErrCDCWriteFailure, "cdc-write-failure"},
 }
 
 var rtWriteTypes = []string{"SIMPLE", "UNLOGGED_BATCH", "BATCH", "COUNTER", "CAS"}
@@ -466,6 +641,10 @@ func runRetry(e *Env) {
 	// and return result") but not property C13, which only demands that it stops retrying:
 	// the clause stays switched off (the draw is kept so that recorded tapes stay valid)
 	armIgn := tp.Chance(1, 2) && false
+	// where statements get their settings from: the cluster configuration may have a retry
+	// policy and a default idempotence of its own (0 = neither: the old behaviour)
+	clusterRT := tp.Next(2) == 1
+	clusterIdem := tp.Next(2) == 1
 	mode := "exact"
 	if relaxed {
 		mode = "relaxed"
@@ -478,6 +657,8 @@ func runRetry(e *Env) {
 	e.Note("mode", mode)
 	e.Note("armNonIdempotent", armNI)
 	e.Note("armIgnoreNil", armIgn)
+	e.Note("clusterRetryPolicy", clusterRT)
+	e.Note("defaultIdempotence", clusterIdem)
 
 	cl := node.NewCluster(k, nHosts)
 	st := &rtState{k: k, cl: cl, ops: map[string]*rtOp{}, byReply: map[*node.Reply]*rtAtt{}, awaited: map[string]bool{}, timeout: timeout,
@@ -513,6 +694,10 @@ func runRetry(e *Env) {
 	cfg.WriteCoalesceWaitTime = 0 // a request is on the wire when exec wrote it: "written after the cancel" is then well defined
 	cfg.PoolConfig.HostSelectionPolicy = hp
 	cfg.RetryPolicy = nil
+	if clusterRT {
+		cfg.RetryPolicy = &rtClusterPolicy{st: st, cur: map[uint64]*rtRecPolicy{}}
+	}
+	cfg.DefaultIdempotence = clusterIdem
 	cfg.Consistency = gocql.Quorum
 
 	// ---- plans ----
@@ -564,7 +749,52 @@ func runRetry(e *Env) {
 				pl.order = append(pl.order, rest[j])
 				rest = append(rest[:j], rest[j+1:]...)
 			}
+			// where the settings come from (every 0 = the statement sets them itself)
+			pl.clusterRT = clusterRT
+			if clusterRT {
+				pl.rtSrc = tp.Next(2)
+				if pl.rtSrc == rtSrcStmt && tp.Chance(1, 3) {
+					// "none for this statement" while the cluster has a policy
+					pl.rtKind, pl.n, pl.levels, pl.script = rtNone, 0, nil, nil
+				}
+				if pl.rtSrc == rtSrcCluster && pl.rtKind == rtNone {
+					// a statement that inherits cannot have none: it gets what the
+					// cluster-wide policy answers for statements it knows nothing about
+					pl.rtKind, pl.n = rtSimple, rtForeignRetries
+				}
+			} else if pl.rtKind == rtNone {
+				pl.rtUnset = tp.Chance(1, 2)
+			}
+			if pl.batch {
+				// idempotence of a batch is that of its entries: all set alike (0), all but
+				// one idempotent (1), none touched (2; entries are born not idempotent, and
+				// whether DefaultIdempotence speaks for them is not documented: only drawn
+				// when it is false)
+				pl.idemVar = tp.Next(3)
+				if pl.idempotent || (pl.idemVar == 2 && clusterIdem) {
+					pl.idemVar = 0
+				}
+				if pl.idemVar == 1 {
+					if pl.nEntries < 2 {
+						pl.nEntries = 2
+					}
+					pl.niEntry = tp.Next(pl.nEntries)
+				}
+			} else {
+				// a query: Idempotent() is left uncalled where the cluster default says the same
+				pl.idemVar = tp.Next(2)
+				if pl.idempotent != clusterIdem {
+					pl.idemVar = 0
+				}
+			}
+			if pl.specK == 0 {
+				pl.specSrc = tp.Next(3)
+			}
 			op := &rtOp{token: fmt.Sprintf("tok-%d-%d", ti, oi), plan: pl}
+			op.rec = st.newRec(op)
+			if clusterRT {
+				op.foreignRec = &rtRecPolicy{st: st, op: op, foreign: true, inner: &gocql.SimpleRetryPolicy{NumRetries: rtForeignRetries}}
+			}
 			st.ops[op.token] = op
 			st.list = append(st.list, op)
 		}
@@ -607,6 +837,28 @@ func runRetry(e *Env) {
 		pending = append(pending, rtArrival{sc: sc, rec: rec, token: token, cons: cons, batch: rq.Header.Opcode == cqlspec.OpBatch})
 	}
 	served := map[*node.SConn]bool{} // connections that have carried a request of the workload
+	var toClose []*node.SConn        // connections a node decided to close instead of answering
+	// closeConn: the node closes a connection; every request of the workload it has not
+	// answered yet is lost with it
+	closeConn := func(sc *node.SConn, fault string) {
+		now := k.SimTime()
+		n := 0
+		st.mu.Lock()
+		for _, op := range st.list {
+			for _, a := range op.atts {
+				if a.sc == sc && !a.dlv && !a.closed {
+					a.closed, a.closedAt = true, now
+					n++
+				}
+			}
+		}
+		st.mu.Unlock()
+		k.Fault(fault)
+		if n > 0 {
+			k.Probe("conn-lost-with-attempt-in-flight")
+		}
+		cl.CloseConn(sc, false)
+	}
 	handle := func(ar rtArrival) {
 		sc, rec, token, cons := ar.sc, ar.rec, ar.token, ar.cons
 		op := st.ops[token]
@@ -655,7 +907,11 @@ func runRetry(e *Env) {
 		// outcome
 		kind := rtOK
 		if faultsOn && !k.Settling() {
-			kind = tp.Weighted([]int{5, 7, 2})
+			if relaxed {
+				kind = tp.Weighted([]int{5, 7, 2, 2})
+			} else {
+				kind = tp.Weighted([]int{5, 7, 2})
+			}
 		}
 		att.kind = kind
 		label := fmt.Sprintf("%s #%d", token, att.idx)
@@ -675,6 +931,13 @@ func runRetry(e *Env) {
 		case rtDrop:
 			k.Fault("outcome.no-reply")
 			r = cl.Send(sc, rec, &cqlspec.Response{Op: cqlspec.OpResult, Kind: cqlspec.KindVoid}, node.Drop, "NEVER "+label)
+		case rtClose:
+			// no answer: the node closes the connection. It does so when the nodes are next
+			// looked at (one step later), so that what the driver does about it is told apart
+			// by its step from what led to this request.
+			k.Fault("outcome.conn-close")
+			r = cl.Send(sc, rec, &cqlspec.Response{Op: cqlspec.OpResult, Kind: cqlspec.KindVoid}, node.Drop, "CLOSE "+label)
+			toClose = append(toClose, sc)
 		default:
 			if ar.batch {
 				r = cl.Send(sc, rec, &cqlspec.Response{Op: cqlspec.OpResult, Kind: cqlspec.KindVoid}, node.Hold, "VOID "+label)
@@ -690,6 +953,12 @@ func runRetry(e *Env) {
 		k.Rec("attempt %s #%d host=%s conn=%s stream=%d cons=%d outcome=%d %s", token, att.idx, att.host, sc.C.Name, rec.Stream, cons, kind, att.detail)
 	}
 	process := func() {
+		for _, sc := range toClose {
+			if !sc.Dead && !sc.C.ClientClosed() {
+				closeConn(sc, "conn.closed-instead-of-answer")
+			}
+		}
+		toClose = toClose[:0]
 		cl.Process()
 		sort.SliceStable(pending, func(i, j int) bool {
 			a, b := pending[i], pending[j]
@@ -747,16 +1016,22 @@ func runRetry(e *Env) {
 					return
 				}
 				ctx, cancel := context.WithCancel(context.Background())
+				// rp stays the nil interface for rtNone: RetryPolicy(nil) = "none for this statement"
 				var rp gocql.RetryPolicy
-				switch pl.rtKind {
-				case rtSimple:
-					rp = &rtRecPolicy{st: st, op: op, inner: &gocql.SimpleRetryPolicy{NumRetries: pl.n}}
-				case rtExp:
-					rp = &rtRecPolicy{st: st, op: op, backoff: true, inner: &gocql.ExponentialBackoffRetryPolicy{NumRetries: pl.n, Min: pl.expMin, Max: pl.expMax}}
-				case rtDowngrade:
-					rp = &rtRecPolicy{st: st, op: op, inner: &gocql.DowngradingConsistencyRetryPolicy{ConsistencyLevelsToTry: pl.levels}}
-				case rtScript:
-					rp = &rtRecPolicy{st: st, op: op, inner: &rtScriptPolicy{budget: pl.n, seq: pl.script}}
+				if op.rec != nil {
+					rp = op.rec
+				}
+				// setRT: does the statement set its retry policy itself? (else it keeps what
+				// Session.Query / Session.NewBatch gave it from the cluster configuration)
+				setRT := pl.rtSrc == rtSrcStmt && !pl.rtUnset
+				var sp gocql.SpeculativeExecutionPolicy
+				switch {
+				case pl.specK > 0:
+					sp = &gocql.SimpleSpeculativeExecution{NumAttempts: pl.specK, TimeoutDelay: pl.specDelay}
+				case pl.specSrc == 1:
+					sp = gocql.NonSpeculativeExecution{}
+				case pl.specSrc == 2:
+					sp = &gocql.SimpleSpeculativeExecution{NumAttempts: 0, TimeoutDelay: 10 * time.Millisecond}
 				}
 				step := k.Step()
 				st.mu.Lock()
@@ -785,20 +1060,41 @@ func runRetry(e *Env) {
 					for i := 0; i < pl.nEntries; i++ {
 						b.Query(fmt.Sprintf("ECHO%d '%s'", i, token))
 					}
-					for i := range b.Entries {
-						b.Entries[i].Idempotent = pl.idempotent
+					switch pl.idemVar {
+					case 1:
+						// one entry that is not idempotent makes the batch not idempotent
+						for i := range b.Entries {
+							b.Entries[i].Idempotent = i != pl.niEntry
+						}
+						k.Probe("idempotence:batch-with-one-non-idempotent-entry")
+					case 2:
+						k.Probe("idempotence:batch-entries-never-marked")
+					default:
+						for i := range b.Entries {
+							b.Entries[i].Idempotent = pl.idempotent
+						}
 					}
-					b.RetryPolicy(rp)
-					if pl.specK > 0 {
-						b.SpeculativeExecutionPolicy(&gocql.SimpleSpeculativeExecution{NumAttempts: pl.specK, TimeoutDelay: pl.specDelay})
+					if setRT {
+						b.RetryPolicy(rp)
+					}
+					if sp != nil {
+						b.SpeculativeExecutionPolicy(sp)
 					}
 					b = b.WithContext(ctx)
 					err = sess.ExecuteBatch(b)
 					attempts = b.Attempts()
 				} else {
-					q := sess.Query("ECHO '" + token + "'").RetryPolicy(rp).Idempotent(pl.idempotent)
-					if pl.specK > 0 {
-						q.SetSpeculativeExecutionPolicy(&gocql.SimpleSpeculativeExecution{NumAttempts: pl.specK, TimeoutDelay: pl.specDelay})
+					q := sess.Query("ECHO '" + token + "'")
+					if setRT {
+						q.RetryPolicy(rp)
+					}
+					if pl.idemVar == 1 {
+						k.Probe("idempotence:query-keeps-cluster-default")
+					} else {
+						q.Idempotent(pl.idempotent)
+					}
+					if sp != nil {
+						q.SetSpeculativeExecutionPolicy(sp)
 					}
 					q = q.WithContext(ctx)
 					err = q.Scan(&got)
@@ -908,25 +1204,7 @@ func runRetry(e *Env) {
 						}
 					}
 					st.mu.Unlock()
-					acts = append(acts, kernel.Action{Key: "srvclose:" + sc.C.Name, Rank: 6, Weight: w, Do: func() {
-						now := k.SimTime()
-						n := 0
-						st.mu.Lock()
-						for _, op := range st.list {
-							for _, a := range op.atts {
-								if a.sc == sc && !a.dlv && !a.closed {
-									a.closed, a.closedAt = true, now
-									n++
-								}
-							}
-						}
-						st.mu.Unlock()
-						k.Fault("conn.server-close")
-						if n > 0 {
-							k.Probe("conn-lost-with-attempt-in-flight")
-						}
-						cl.CloseConn(sc, false)
-					}})
+					acts = append(acts, kernel.Action{Key: "srvclose:" + sc.C.Name, Rank: 6, Weight: w, Do: func() { closeConn(sc, "conn.server-close") }})
 				}
 			}
 			return acts
@@ -1007,7 +1285,7 @@ func (st *rtState) history(op *rtOp) string {
 	}
 	var evs []ev
 	for _, a := range op.atts {
-		s := fmt.Sprintf("#%d->%s cons=%d outcome=%s", a.idx, a.host, a.cons, []string{"rows", "error", "silence"}[a.kind])
+		s := fmt.Sprintf("#%d->%s cons=%d outcome=%s", a.idx, a.host, a.cons, []string{"rows", "error", "silence", "connection closed by the node"}[a.kind])
 		if a.kind == rtErr {
 			s += fmt.Sprintf("(%#x %s)", a.code, a.detail)
 		}
@@ -1020,10 +1298,14 @@ func (st *rtState) history(op *rtOp) string {
 		evs = append(evs, ev{a.step, 1 << 30, s})
 	}
 	for i, c := range op.calls {
+		who := ""
+		if c.foreign {
+			who = "cluster-wide policy: "
+		}
 		if c.attempt {
-			evs = append(evs, ev{c.step, 1 + i, fmt.Sprintf("Attempt(attempts=%d)=%v", c.attempts, c.ok)})
+			evs = append(evs, ev{c.step, 1 + i, fmt.Sprintf("%sAttempt(attempts=%d)=%v", who, c.attempts, c.ok)})
 		} else {
-			evs = append(evs, ev{c.step, 1 + i, fmt.Sprintf("GetRetryType(%s)=%s", c.err, rtTypeName(c.typ))})
+			evs = append(evs, ev{c.step, 1 + i, fmt.Sprintf("%sGetRetryType(%s)=%s", who, c.err, rtTypeName(c.typ))})
 		}
 	}
 	sort.SliceStable(evs, func(i, j int) bool {
@@ -1171,6 +1453,35 @@ func (st *rtState) checkOp(op *rtOp) {
 		st.viol(op, sig, "%s (%s): %d request(s) reached servers after the result had been returned to the caller at step %d", op.token, kind, late, op.ret)
 		return
 	}
+	// (2a) the statement's own setting wins over the cluster configuration: the cluster-wide
+	// policy has no say in a statement that has a policy of its own or was told to have none
+	switch {
+	case !pl.clusterRT:
+	case pl.rtSrc == rtSrcCluster:
+		k.Probe("policy-source:inherited-from-cluster")
+	case pl.rtKind == rtNone:
+		k.Probe("policy-source:none-on-statement-over-cluster-policy")
+	default:
+		k.Probe("policy-source:statement-over-cluster-policy")
+	}
+	if pl.rtUnset {
+		k.Probe("policy-source:never-set-anywhere")
+	}
+	for _, c := range op.calls {
+		if !c.foreign {
+			continue
+		}
+		what := fmt.Sprintf("GetRetryType(%s)=%s", c.err, rtTypeName(c.typ))
+		if c.attempt {
+			what = fmt.Sprintf("Attempt(attempts=%d)=%v", c.attempts, c.ok)
+		}
+		if pl.rtKind == rtNone {
+			st.viol(op, "cluster-policy-consulted-for-statement-set-to-no-policy", "%s was given RetryPolicy(nil) - no retry policy for this statement - yet the retry policy of the cluster configuration was consulted for it at step %d: %s (it reached servers %d times)", op.token, c.step, what, len(A))
+		} else {
+			st.viol(op, "cluster-policy-consulted-for-statement-with-own-policy", "%s has a retry policy of its own, yet the retry policy of the cluster configuration was consulted for it at step %d: %s (it reached servers %d times)", op.token, c.step, what, len(A))
+		}
+		return
+	}
 	// (3) a query not marked idempotent is never retried
 	if !pl.idempotent && len(A) >= 2 {
 		if st.armNI {
@@ -1178,6 +1489,12 @@ func (st *rtState) checkOp(op *rtOp) {
 			return
 		}
 		k.Probe("non-idempotent-retried(unarmed)")
+	}
+	// (3a) ... and the retry policy has no say in it: its callbacks (which may sleep, or change
+	// the consistency of the statement) are not invoked for it
+	if !pl.idempotent && len(op.calls) > 0 && st.armNI {
+		st.viol(op, "retry-policy-consulted-for-non-idempotent", "%s is not marked idempotent but its retry policy was consulted %d time(s)", op.token, len(op.calls))
+		return
 	}
 	// (4) attempt budget: one attempt per execution plus what the policy's budget allows
 	limit := 1 + pl.budget()
@@ -1229,6 +1546,19 @@ func (st *rtState) exactWalk(op *rtOp) {
 	A := op.atts
 	O := pl.order
 	i, oi, ci := 0, 0, 0
+	// the policy is consulted exactly when the contract says: whatever call is left over when
+	// the walk is through was made out of turn (after a success, after Attempt() said no,
+	// after Rethrow / Ignore, twice for one failure)
+	defer func() {
+		if k.Violation() == nil && ci < len(op.calls) {
+			c := op.calls[ci]
+			what := fmt.Sprintf("GetRetryType(%s)", c.err)
+			if c.attempt {
+				what = fmt.Sprintf("Attempt(attempts=%d)", c.attempts)
+			}
+			st.viol(op, "retry-policy-consulted-out-of-turn", "%s: the retry policy was consulted (%s at step %d) when the contract had no question for it: %d call(s) in all, %d accounted for by failed attempts", op.token, what, c.step, len(op.calls), ci)
+		}
+	}()
 	// last: attempt a must be the final one and its outcome the caller's result
 	last := func(a *rtAtt, sigMore, why string) {
 		if len(A) > a.idx+1 {
@@ -1271,9 +1601,25 @@ func (st *rtState) exactWalk(op *rtOp) {
 			last(a, "too-many-attempts", "the previous attempt had succeeded")
 			return
 		}
+		fk := map[int]string{effErr: "server-error", effTimeout: "request-timeout", effConn: "connection-loss"}[ef]
+		if ef == effErr {
+			fk = fmt.Sprintf("server-error-%#06x", a.code)
+		}
 		if pl.rtKind == rtNone {
+			k.Probe("failed-attempt-of-statement-without-policy:" + fk)
+			if pl.clusterRT {
+				k.Probe("failed-attempt-of-statement-set-to-no-policy-over-cluster-policy")
+			}
 			last(a, "too-many-attempts", "the query has no retry policy")
 			return
+		}
+		if !pl.idempotent {
+			k.Probe("failed-attempt-of-non-idempotent-statement:" + fk)
+		} else {
+			k.Probe("failed-attempt-judged-by-policy:" + fk)
+			if pl.rtSrc == rtSrcCluster {
+				k.Probe("failed-attempt-judged-by-inherited-cluster-policy")
+			}
 		}
 		if !pl.idempotent && st.armNI {
 			if len(A) > i+1 {
@@ -1433,6 +1779,25 @@ func (st *rtState) relaxedWalk(op *rtOp) {
 			return
 		case p1 != p0 && !next:
 			k.Probe("host-skipped-for-want-of-connection")
+		}
+	}
+	// every failed attempt of an idempotent statement with a policy is put to the policy: each
+	// request but the first was granted by an Attempt() call, and one more call judges the last
+	// request when that is known to have failed (attempts that never reached a node - written
+	// to a connection already lost - only add calls)
+	if n := len(A); n > 0 && !op.cancelFired && pl.idempotent && pl.rtKind != rtNone {
+		if e := st.eff(A[n-1]); e == effErr || e == effTimeout || e == effConn {
+			asked := 0
+			for _, c := range op.calls {
+				if c.attempt {
+					asked++
+				}
+			}
+			if asked < n {
+				st.viol(op, "missing-attempt", "%s: attempt #%d failed (%s) and the retry policy was never consulted (%d request(s), %d Attempt() call(s))", op.token, n-1, st.effName(A[n-1]), n, asked)
+				return
+			}
+			k.Probe("relaxed:last-failure-put-to-policy:" + map[int]string{effErr: "server-error", effTimeout: "request-timeout", effConn: "connection-loss"}[e])
 		}
 	}
 	if len(A) > 0 && pos[A[0].host] != 0 {
